@@ -7,7 +7,8 @@ class Prop(WalletProp):
     theorems = ["C16_wif_tag", "C16_version_network", "C16_coin_type", "C16_address_tags", "C16_from_extended_key_network"]
     rule = ("Both networks x wallets from random seeds: generate() (every address, WIF, account extended key and coin type checked in Coq against the "
             "Spec tags of the wallet's own network), Wasabi export, and watch-only wallets re-imported from each public version prefix (their network "
-            "is the prefix's; their addresses equal the full wallet's). Non-trivial = distinct (case, output).")
+            "is the prefix's; their addresses equal the full wallet's). NodeKeys: node_extended_keys on nodes whose path carries the other network's "
+            "coin type or no standard purpose: both version prefixes must be the wallet's own network's. Non-trivial = distinct (case, output).")
 
     def gen_cases(self, rng, tier):
         T = tier == "thorough"
@@ -22,4 +23,10 @@ class Prop(WalletProp):
             for v in PUBV[testnet]:
                 w = self.rand_wspec(rng, testnet)
                 cases.append({"kind": "Watch", "w": w, "export": [44 + H, (1 if testnet else 0) + H, H], "v": v, "sub": [0, rng.randrange(0, 50)]})
+        # extended keys of nodes whose path carries the OTHER network's coin type (or no standard purpose at all)
+        for testnet in (False, True):
+            w = self.rand_wspec(rng, testnet)
+            other = 0 if testnet else 1
+            for path in ([44 + H, other + H, H], [49 + H, other + H, 7 + H], [84 + H, other + H, H, 1, 2], [H, 1 + H], [1 + H, H], []):
+                cases.append({"kind": "NodeKeys", "w": w, "path": path})
         return cases
